@@ -17,7 +17,7 @@ AddTAttr(n, cp, own) == /\ Len(in.tattrs) < MaxTAttrs /\ in.ms = <<>>
                         /\ in' = [in EXCEPT !.tattrs = Append(@, [n |-> n, cp |-> cp, own |-> own])]
 AddMember == Len(in.ms) < MaxMembers /\ in.shape # "unit" /\ in' = [in EXCEPT !.ms = Append(@, <<>>)]
 AddMAttr(n, cp, own) == /\ in.ms # <<>> /\ Len(in.ms[Len(in.ms)]) < MaxMAttrs
-                        /\ (n \notin MemberOk => cp = "-")
+                        /\ (n \notin MemberOk => cp = "-") /\ (n = "map_bare" => cp = "-")
                         /\ (SpellAll \/ n = "bogus" \/ own = FALSE)
                         /\ ~(in.dt = "enum" /\ n = "child")                  \* #[child] on a variant: no documented rule either way
                         /\ ~(n \in {"literal", "pattern", "type_hint"} /\ in.dt = "enum" /\ \E x \in ToSetQ(in.ms[Len(in.ms)]) : x.n \in {"literal", "pattern"} /\ x.n # n)
